@@ -22,19 +22,25 @@ Lens(s) == Clip({1, 2, 3, s.w - s.col, s.w - s.col + 1, s.w - s.col + 2, s.w, s.
 Rs(s) == {0, 1, 2, s.top - 1, s.top, s.bot, s.bot + 1, s.h - 1, s.h, s.h + 1, 255} \cap 0..300
 Cs(s) == {0, 1, 2, s.w - 1, s.w, s.w + 1, 255}
 ModeW(m, w) == CASE m = 0 -> (IF w = 20 THEN 40 ELSE w) [] m \in {1, 7} -> 40 [] OTHER -> 80
-Actions(s) ==
-    {[op |-> "print", s |-> Pat(k, 65), nl |-> nl] : k \in Lens(s), nl \in BOOLEAN}
-    \cup {[op |-> "print", s |-> <<c>>, nl |-> FALSE] : c \in {9, 10, 11, 12, 13, 28, 29, 30, 31, 8, 0, 255}}
-    \cup {[op |-> "print", s |-> x, nl |-> nl] : x \in {<<>>, <<97, 13, 98>>, <<97, 10, 13, 98>>, <<97, 9, 98>>,
-                                                        <<120, 31, 121, 29, 29, 122>>, <<30, 30, 120, 28, 121>>,
-                                                        Pat(s.w - 1, 97) \o <<9, 120>>, <<11, 120>>, <<120, 12, 121>>},
-                                                 nl \in BOOLEAN}
-    \cup {[op |-> "locate", r |-> r, c |-> c] : r \in Rs(s), c \in Cs(s)}
-    \cup {[op |-> "cls"]}
-    \cup {[op |-> "viewprint", t |-> t, b |-> b] : t \in {0, 1, 2, s.h \div 2, s.h - 2, s.h - 1},
-                                                   b \in {0, 1, 2, s.h \div 2, s.h - 2, s.h - 1, s.h}}
-    \cup {[op |-> "width", n |-> x, fresh |-> x # s.w, nw |-> x, nmode |-> IF s.mode = 0 THEN 0 ELSE IF x = 40 THEN 1 ELSE 2] : x \in TextWidths}
-    \cup {[op |-> "screen", m |-> m, fresh |-> m # s.mode, nw |-> ModeW(m, s.w), nmode |-> m] : m \in Modes}
+\* the catalogue of one kind of statement in model state s
+ActionsOf(s, k) ==
+    CASE k = "print" ->
+           {[op |-> "print", s |-> Pat(n, 65), nl |-> nl] : n \in Lens(s), nl \in BOOLEAN}
+           \cup {[op |-> "print", s |-> <<c>>, nl |-> FALSE] : c \in {9, 10, 11, 12, 13, 28, 29, 30, 31, 8, 0, 255}}
+           \cup {[op |-> "print", s |-> x, nl |-> nl] : x \in {<<>>, <<97, 13, 98>>, <<97, 10, 13, 98>>, <<97, 9, 98>>,
+                                                               <<120, 31, 121, 29, 29, 122>>, <<30, 30, 120, 28, 121>>,
+                                                               Pat(s.w - 1, 97) \o <<9, 120>>, <<11, 120>>, <<120, 12, 121>>},
+                                                        nl \in BOOLEAN}
+      [] k = "locate" -> {[op |-> "locate", r |-> r, c |-> c] : r \in Rs(s), c \in Cs(s)}
+      [] k = "cls" -> {[op |-> "cls"]}
+      [] k = "viewprint" ->
+           {[op |-> "viewprint", t |-> t, b |-> b] : t \in {0, 1, 2, s.h \div 2, s.h - 2, s.h - 1},
+                                                     b \in {0, 1, 2, s.h \div 2, s.h - 2, s.h - 1, s.h}}
+      [] k = "width" ->
+           {[op |-> "width", n |-> x, fresh |-> x # s.w, nw |-> x,
+             nmode |-> IF s.mode = 0 THEN 0 ELSE IF x = 40 THEN 1 ELSE 2] : x \in TextWidths}
+      [] k = "screen" ->
+           {[op |-> "screen", m |-> m, fresh |-> m # s.mode, nw |-> ModeW(m, s.w), nmode |-> m] : m \in Modes}
 
 \* weight the kinds of statement (printing most)
 Kinds == <<"print", "print", "print", "print", "print", "locate", "locate", "cls", "viewprint", "viewprint", "width", "screen">>
@@ -43,7 +49,7 @@ Next == /\ Len(hist) < D
         /\ LET r1 == Lcg(rnd)
                r2 == Lcg(r1)
                k  == Kinds[1 + ((r1 \div 5) % Len(Kinds))]
-               a  == Pick({x \in Actions(st) : x.op = k}, r2)
+               a  == Pick(ActionsOf(st, k), r2)
                ok == RefOk(st, a)
            IN  /\ st' = IF ok THEN Effect(st, a) ELSE st
                /\ hist' = Append(hist, a @@ [done |-> ok])
